@@ -138,9 +138,18 @@ class StoreProxy:
         i = self.calls.get(name, 0)
         self.calls[name] = i + 1
         plan = self.fail_plan.get(name) or []
-        if i < len(plan) and plan[i]:
+        # "transient" is a statement about ONE logical write (the caller's retry loop): at most `max_consecutive` failures in a row
+        # as seen by the task that is retrying.  Calls of other tasks to the same method may interleave (they do once the retry
+        # pause is real), so the cap is kept per (method, calling task), not per method.
+        key = (name, id(asyncio.current_task()))
+        streak = getattr(self, "_streaks", None)
+        if streak is None:
+            streak = self._streaks = {}
+        if i < len(plan) and plan[i] and streak.get(key, 0) < getattr(self, "max_consecutive", 2):
+            streak[key] = streak.get(key, 0) + 1
             self.injected += 1
             return True
+        streak[key] = 0
         return False
 
     async def append_tick(self, run_id, tick_data):
